@@ -18,7 +18,7 @@ def showCEAErr : CEAErr → String
 
 /-- the CEA the harness' scripted peer sends for a reaction letter: its class for the model -/
 def reactionClass (b : String) : Option (Option String) :=   -- some none: success; some (some c): failing with class c
-  if b = "S" then some none
+  if b = "S" ∨ b = "Z" then some none      -- Z: success CEA with an application answer right behind it
   else if b = "F" then some (some "failedrc:5012")
   else if b = "M" then some (some "missinghost")
   else if b = "A" then some (some "application")
@@ -91,7 +91,8 @@ def judgeDial (d : DictRt) (R cfgK wf : Nat) (behTok postTok : String) (la : Lis
   let closed := if sEnd.libClosed then 1 else 0
   -- the CER as the model builds it
   let cfg := settingsMenu cfgK
-  let ips := if cfg.hostIPs.isEmpty then [la.map UInt8.ofNat] else cfg.hostIPs
+  -- (`la = []`: the local endpoint has no address that can be advertised - a zoned IPv6 one)
+  let ips := if cfg.hostIPs.isEmpty then (if la.isEmpty then [] else [la.map UInt8.ofNat]) else cfg.hostIPs
   let u := fun (code v : Nat) => newAVP code 64 0 (.fix T.u32 v)
   let grp := fun (ms : List AVP) => newAVP C.vsa 64 0 (.group ms)
   let apps : ClientApps :=
@@ -120,7 +121,10 @@ def judgeDial (d : DictRt) (R cfgK wf : Nat) (behTok postTok : String) (la : Lis
     | [h, _] => h ++ ")" ++ showAVPs ((decodeAVPs (dfn.avpType 0) ((encL cerAVPs).length + 1) (encL cerAVPs)) |> fun r => match r with | .ok as => as | _ => cerAVPs)
     | _ => "?"
   let lateOut := if outClass = "ok" then "-" else "0"
-  let modelOut := s!"out={outClass} cers={sEnd.cers} same=1 gap={gap} closed={closed} pre=0 post={postOut} late={lateOut} cer={cerModel}"
+  -- the answer that followed an accepted success CEA in its segment is dispatched (C10_client_first_cea_decides:
+  -- the metadata is in the context when the CEA handler returns, before the reader takes the next message)
+  let zOut := if beh.contains "Z" then (if outClass = "ok" then " z=1" else " z=0") else ""
+  let modelOut := s!"out={outClass} cers={sEnd.cers} same=1 gap={gap} closed={closed} pre=0 post={postOut} late={lateOut}{zOut} cer={cerModel}"
   Id.run do
     let mut fails : List String := []
     let iOut := (kv impl "out").getD ""
@@ -130,6 +134,10 @@ def judgeDial (d : DictRt) (R cfgK wf : Nat) (behTok postTok : String) (la : Lis
     if impl.headD "" = "hang" then fails := fails ++ ["C12:dial-never-returns"]
     if (kvNat impl "pre").getD 0 > 0 then fails := fails ++ ["C10:application-handler-ran-before-handshake"]
     if (kvNat impl "late").getD 0 > 0 then fails := fails ++ ["C10:application-handler-ran-after-failed-handshake"]
+    if beh.contains "Z" ∧ outClass = "ok" ∧ (kvNat impl "z").getD 0 = 0 then
+      fails := fails ++ ["C10:message-behind-the-success-cea-not-dispatched"]
+    if beh.contains "Z" ∧ outClass ≠ "ok" ∧ (kvNat impl "z").getD 0 > 0 then
+      fails := fails ++ ["C10:application-handler-ran-after-failed-handshake"]
     if iCers > R + 1 then fails := fails ++ ["C12:more-cers-than-budget"]
     if (kv impl "same").getD "1" ≠ "1" then fails := fails ++ ["C12:retransmitted-cer-differs"]
     if (kv impl "gap").getD "na" = "short" then fails := fails ++ ["C12:retransmission-before-interval"]
@@ -160,7 +168,7 @@ def judgeWD (d : DictRt) (R : Nat) (behTok : String) (impl : List String) : Judg
         match st.pc with
         | .writing _ =>
           let w := stepAll st [.writeOk]
-          if b = "A" ∨ b = "E" ∨ b = "L" ∨ b = "V" then stepAll w [.dwaOk, .ack]
+          if b = "A" ∨ b = "E" ∨ b = "L" ∨ b = "V" ∨ b = "O" then stepAll w [.dwaOk, .ack]
           else if b = "T" then stepAll w [.dwaOk, .dwaOk, .dwaOk, .ack]
           else if b = "F" then stepAll w [.dwaFail, .rtTimer]
           else stepAll w [.rtTimer]
@@ -178,7 +186,7 @@ def judgeWD (d : DictRt) (R : Nat) (behTok : String) (impl : List String) : Judg
     if iCycles.any (· > R + 1) then fails := fails ++ ["C13:more-dwrs-than-budget-in-one-cycle"]
     if (kv impl "same").getD "1" ≠ "1" then fails := fails ++ ["C13:dwr-identity-differs"]
     -- a cycle whose script contains an answer must not end in a close
-    let anyAnswered := cycles.all (fun c => c.any (fun b => b = "A" ∨ b = "E" ∨ b = "L" ∨ b = "V" ∨ b = "T"))
+    let anyAnswered := cycles.all (fun c => c.any (fun b => b = "A" ∨ b = "E" ∨ b = "L" ∨ b = "V" ∨ b = "O" ∨ b = "T"))
     if anyAnswered ∧ iClosed = 1 then fails := fails ++ ["C13:responsive-peer-disconnected"]
     if ¬ anyAnswered ∧ sEnd.closedByWD ∧ iClosed = 0 then fails := fails ++ ["C13:silent-peer-not-disconnected"]
     if iCycles ≠ counts ∧ fails.isEmpty then fails := fails ++ ["C13:dwr-count-per-cycle-differs"]
